@@ -25,7 +25,7 @@ TIMEOUT = {"quick": 900, "thorough": 7200}
 
 def shards(tier, seed, scale):
     n = 16 if tier == "quick" else 64
-    per = int((190 if tier == "quick" else 2400) * scale)
+    per = int((450 if tier == "quick" else 2400) * scale)
     return [{"n": per, "maxlen": 5 if tier == "quick" else 7} for _ in range(n)]
 
 
